@@ -187,10 +187,7 @@ Theorem C03_timeout_iff_unit : forall tbl cfg es r,
    exists es1 e es2 r1, es = es1 ++ e :: es2 /\ urun tbl cfg (uinit cfg) es1 = Ok r1 /\
      e = FireInterval /\ ph (fst r1) = PRunning /\ slc_due (k_isl (ck (fst r1))) = true /\
      timed_out (fst r1) = false /\ will_terminate cfg (hits (fst r1) + 1) = true).
-Proof.
-  intros tbl cfg es r H Hp. rewrite (timed_out_iff_path tbl cfg es r H Hp).
-  exact (on_path_split tbl cfg (timeout_fire cfg) es (uinit cfg) r H).
-Qed.
+Proof. exact timed_out_iff_split. Qed.
 Print Assumptions C03_timeout_iff_unit.
 
 (* ... that step signals the process group with the configured method (SIGKILL for a zero grace
@@ -219,10 +216,7 @@ Theorem C03_unit_leaked_iff : forall tbl cfg es r,
    exists es1 e es2 r1, es = es1 ++ e :: es2 /\ urun tbl cfg (uinit cfg) es1 = Ok r1 /\
      e = FireLeak /\ ph (fst r1) = PExiting /\ slc_due (lsl (fst r1)) = true /\
      fds_done (fst r1) = false).
-Proof.
-  intros tbl cfg es r H. rewrite (leaked_iff_path tbl cfg es r H).
-  exact (on_path_split tbl cfg leak_fire es (uinit cfg) r H).
-Qed.
+Proof. exact leaked_iff_split. Qed.
 Print Assumptions C03_unit_leaked_iff.
 
 Theorem C03_unit_leak_not_early : forall tbl cfg es r,
